@@ -120,6 +120,23 @@ let run (line : string) : unit =
                  | Some m when legal p m -> go (apply p m) (i + 1) rest
                  | _ -> Printf.printf "specline bad at=%d move=%s\n" i t) in
           go p 0 toks)
+  | "specplay" ->
+      (* specplay m1 m2 ... | fen : the game as the RULES play it; one line per ply with the legal moves there *)
+      let (mvs, fen) = split_bar rest in
+      with_pos cmd fen (fun p ->
+          let toks = List.filter (fun x -> x <> "") (String.split_on_char ' ' mvs) in
+          let show i p =
+            let extra = List.filter (fun m -> not (legal p m)) (pseudo_legal_moves p) in
+            Printf.printf "specply %d sane=%d render=%s legal=%s exposing=%s\n" i (b01 (sane p))
+              (us (string_of_text (render p))) (texts (legal_moves p)) (texts extra) in
+          let rec go p i = function
+            | [] -> show i p
+            | t :: rest ->
+                show i p;
+                (match parse_move (scalars_of_string t) with
+                 | Some m when legal p m -> go (apply p m) (i + 1) rest
+                 | _ -> Printf.printf "specply %d illegal=%s\n" (i + 1) t) in
+          go p 0 toks)
   | "specmirror" ->
       with_pos cmd rest (fun p ->
           let mb = mirror_board p.p_board in
